@@ -170,6 +170,11 @@ func (win Window) Print(segs ...Segment) (col int, row int) {
 				// characterWidth will cache the result
 				char.Width = win.Vx.characterWidth(char.Grapheme)
 			}
+			if col > 0 && col+char.Width > cols {
+				// A wide character doesn't fit in the rest of the row
+				row += 1
+				col = 0
+			}
 			cell := Cell{
 				Character: char,
 				Style:     seg.Style,
@@ -296,6 +301,11 @@ func (win Window) Wrap(segs ...Segment) (col int, row int) {
 					row += 1
 					col = 0
 					continue
+				}
+				if col > 0 && col+char.Width > cols {
+					// A wide character doesn't fit in the rest of the row
+					row += 1
+					col = 0
 				}
 				cell := Cell{
 					Character: char,
